@@ -98,12 +98,15 @@ fn any_vti() -> VerificationTypeInfo {
 		7 => VerificationTypeInfo::Object { cpool_index: x }, _ => VerificationTypeInfo::Unintialized { offset: x },
 	}
 }
+fn vec1(v: VerificationTypeInfo) -> Vec<VerificationTypeInfo> { let mut l = Vec::with_capacity(1); l.push(v); l }
+#[inline(always)]
+fn append(d: u16, locals: Vec<VerificationTypeInfo>) { roundtrip(smt(StackMapFrame::AppendFrame { offset_delta: d, locals }), b"StackMapTable") }
 fn two_vti() -> VerificationTypeInfo { if sym::bool() { VerificationTypeInfo::Top {} } else { VerificationTypeInfo::Object { cpool_index: sym::u16() } } }
 fn smt(frame: StackMapFrame) -> AttributeInfo { let mut v = Vec::with_capacity(1); v.push(frame); AttributeInfo::StackMapTable { attribute_name_index: 1, entries: v } }
 
-//# {"id":"c20_frame_append_1","props":["C20"],"tier":"thorough","cap":3600,"bound":"StackMapTable with one AppendFrame of 1 local (Top or Object with symbolic index), symbolic offset: framing, announced length, read(write(x)) == x; unwind 16","fns":["AttributeInfo::{_write,_len,_read}","StackMapFrame::{_write,_len,_read}","VerificationTypeInfo::{_write,_len,_read}","pool_has_utf8"]}
-//# {"id":"c20_frame_append_3","props":["C20"],"tier":"thorough","cap":3600,"bound":"... AppendFrame of 3 locals; unwind 16","fns":["StackMapFrame::{_write,_len,_read}"]}
-//# {"id":"c20_frame_chop_full","props":["C20"],"tier":"thorough","cap":3600,"bound":"ChopFrame (k symbolic 1..=3) and FullFrame (1 local, 1 stack item), symbolic offsets; unwind 16","fns":["StackMapFrame::{_write,_len,_read}"]}
+//# {"id":"c20_frame_append_1","props":["C20"],"tier":"thorough","cap":3600,"bound":"StackMapTable with one AppendFrame of 1 local (Top, or Object with symbolic index), symbolic offset: framing, announced length, read(write(x)) == x; unwind 16","fns":["AttributeInfo::{_write,_len,_read}","StackMapFrame::{_write,_len,_read}","VerificationTypeInfo::{_write,_len,_read}","pool_has_utf8"]}
+//# {"id":"c20_frame_append_3","props":["C20"],"tier":"thorough","cap":3600,"bound":"... AppendFrame of 3 locals (Integer, Object x, Uninitialized y / Object x, Long, Null; x, y symbolic); unwind 16","fns":["StackMapFrame::{_write,_len,_read}"]}
+//# {"id":"c20_frame_chop_full","props":["C20"],"tier":"thorough","cap":3600,"bound":"ChopFrame with k = 1, 2, 3 and FullFrame (1 Object local with symbolic index, 1 Float stack item), symbolic offsets; unwind 16","fns":["StackMapFrame::{_write,_len,_read}"]}
 //# {"id":"c20_stack_map_roundtrip","props":["C20"],"tier":"thorough","cap":3600,"bound":"StackMapTable with one frame of each of the seven kinds (symbolic offsets, chop count 1..=3, append with 1..=3 locals, full frame with one local and one stack item, every verification type with symbolic index): attribute_length, announced length, and read(write(x)) == x consuming all bytes; unwind 16","fns":["AttributeInfo::{_write,_len,_read}","StackMapFrame::{_write,_len,_read}","VerificationTypeInfo::{_write,_len,_read}","pool_has_utf8"]}
 //# {"id":"c20_simple_roundtrip","props":["C20"],"tier":"quick","cap":1500,"bound":"read(write(x)) == x for EnclosingMethod, NestMembers (2 entries), MethodParameters (1 entry), Exceptions (1 entry) with symbolic field values; unwind 24","fns":["AttributeInfo::{_write,_len,_read}","pool_has_utf8"]}
 //# {"id":"c20_attr_fixed","props":["C20"],"tier":"quick","cap":600,"bound":"the nine fixed-size attributes (ConstantValue, EnclosingMethod, Synthetic, Signature, SourceFile, Deprecated, ModuleMainClass, NestHost) with all u16 field values; unwind 8","fns":["raw_class_file::AttributeInfo::{_write,_len}"]}
@@ -143,25 +146,29 @@ proofs! {
 
 	#[cfg_attr(kani, kani::unwind(16))]
 	fn c20_frame_append_1() {
-		let mut locals = Vec::with_capacity(1);
-		locals.push(two_vti());
-		roundtrip(smt(StackMapFrame::AppendFrame { offset_delta: sym::u16(), locals }), b"StackMapTable");
+		// every enum discriminant is a constant in each arm (probe 30); offsets and indices are symbolic
+		let (d, x) = (sym::u16(), sym::u16());
+		if sym::bool() { append(d, vec1(VerificationTypeInfo::Top {})); } else { append(d, vec1(VerificationTypeInfo::Object { cpool_index: x })); }
 	}
 	#[cfg_attr(kani, kani::unwind(16))]
 	fn c20_frame_append_3() {
-		let mut locals = Vec::with_capacity(3);
-		locals.push(two_vti()); locals.push(two_vti()); locals.push(two_vti());
-		roundtrip(smt(StackMapFrame::AppendFrame { offset_delta: sym::u16(), locals }), b"StackMapTable");
+		let (d, x, y) = (sym::u16(), sym::u16(), sym::u16());
+		if sym::bool() {
+			let mut l = Vec::with_capacity(3); l.push(VerificationTypeInfo::Integer {}); l.push(VerificationTypeInfo::Object { cpool_index: x }); l.push(VerificationTypeInfo::Unintialized { offset: y });
+			append(d, l);
+		} else {
+			let mut l = Vec::with_capacity(3); l.push(VerificationTypeInfo::Object { cpool_index: x }); l.push(VerificationTypeInfo::Long {}); l.push(VerificationTypeInfo::Null {});
+			append(d, l);
+		}
 	}
 	#[cfg_attr(kani, kani::unwind(16))]
 	fn c20_frame_chop_full() {
-		let d16 = sym::u16();
-		if sym::bool() {
-			roundtrip(smt(StackMapFrame::ChopFrame { k: sym::u8_in(1, 3), offset_delta: d16 }), b"StackMapTable");
-		} else {
-			let mut locals = Vec::with_capacity(1); locals.push(two_vti());
-			let mut stack = Vec::with_capacity(1); stack.push(two_vti());
-			roundtrip(smt(StackMapFrame::FullFrame { offset_delta: d16, locals, stack }), b"StackMapTable");
+		let (d, x) = (sym::u16(), sym::u16());
+		match sym::u8_in(0, 3) {
+			0 => roundtrip(smt(StackMapFrame::ChopFrame { k: 1, offset_delta: d }), b"StackMapTable"),
+			1 => roundtrip(smt(StackMapFrame::ChopFrame { k: 2, offset_delta: d }), b"StackMapTable"),
+			2 => roundtrip(smt(StackMapFrame::ChopFrame { k: 3, offset_delta: d }), b"StackMapTable"),
+			_ => roundtrip(smt(StackMapFrame::FullFrame { offset_delta: d, locals: vec1(VerificationTypeInfo::Object { cpool_index: x }), stack: vec1(VerificationTypeInfo::Float {}) }), b"StackMapTable"),
 		}
 	}
 
